@@ -124,12 +124,32 @@ int Cleaner::CleanAll(bool generator) {
   return status_;
 }
 
-int Cleaner::CleanDead(const BuildLog::Entries& entries) {
+int Cleaner::CleanDead(const BuildLog::Entries& entries, DepsLog* deps_log) {
   Reset();
   PrintHeader();
   LoadDyndeps();
+
+  // Files named by the recorded dependencies of an output that still has a
+  // build statement using deps are inputs of that statement, even though
+  // deps-log records are only attached to edges by a build's dependency scan.
+  std::set<const Node*> live_deps;
+  if (deps_log) {
+    const std::vector<Node*>& nodes = deps_log->nodes();
+    for (std::vector<Node*>::const_iterator o = nodes.begin();
+         o != nodes.end(); ++o) {
+      if (!*o || !DepsLog::IsDepsEntryLiveFor(*o))
+        continue;
+      if (DepsLog::Deps* deps = deps_log->GetDeps(*o)) {
+        for (int d = 0; d < deps->node_count; ++d)
+          live_deps.insert(deps->nodes[d]);
+      }
+    }
+  }
+
   for (BuildLog::Entries::const_iterator i = entries.begin(); i != entries.end(); ++i) {
     Node* n = state_->LookupNode(i->first);
+    if (n && live_deps.count(n))
+      continue;
     // Detecting stale outputs works as follows:
     //
     // - If it has no Node, it is not in the build graph, or the deps log
